@@ -133,6 +133,9 @@ EmbedShapes == <<
   Shape("e.val.in.val", Desc(<<Msg("Inner", <<Fld("Num", 1, "int32")>>, <<>>),
         Msg("Outer", <<Fld("Str", 1, "string"), NonNull(Embed(MsgF("Inner", 2, "Inner")))>>, <<>>),
         Msg("Root", <<NonNull(Embed(MsgF("Outer", 1, "Outer"))), Fld("Flag", 2, "bool")>>, <<>>)>>), BaseCfg),
+  \* the nullable embedded message with a list child one level BELOW the root (the known nil-parent defect, nested)
+  Shape("e.ptr.list.below", Desc(<<Leaf2, Msg("Outer", <<Embed(MsgF("Leaf", 1, "Leaf")), Fld("Num", 2, "int32")>>, <<>>),
+        Msg("Root", <<NonNull(MsgF("Sub", 1, "Outer")), Fld("Zed", 2, "string")>>, <<>>)>>), BaseCfg),
   \* a NULLABLE embedded message inside a message that is itself embedded BY VALUE
   Shape("e.ptr.in.val", Desc(<<Msg("Inner", <<Fld("Num", 1, "int32"), Fld("Flag", 2, "bool")>>, <<>>),
         Msg("Outer", <<Fld("Str", 1, "string"), Embed(MsgF("Inner", 2, "Inner"))>>, <<>>),
